@@ -155,8 +155,29 @@ def gen_mi(rng, F):
     return [[m, sh] for m in mi]                    # dyadic, non-negative, positive sum
 
 
+def gen_mi_boundary(rng, F):
+    """mutual-information vectors at the edges: a leading zero, a single non-zero score, ascending (i.e. not sorted
+    as MutualInformationSort leaves them), all equal"""
+    kind = rng.pick(["leading_zero", "single_nonzero", "ascending", "equal"])
+    if kind == "leading_zero" and F >= 2:
+        mi = [0] + [rng.pick([1, 2, 3, 8]) for _ in range(F - 1)]
+    elif kind == "single_nonzero":
+        mi = [0] * F
+        mi[rng.randrange(F)] = rng.pick([1, 3, 16])
+    elif kind == "ascending":
+        mi = sorted(rng.pick([1, 2, 3, 4, 6, 8, 16]) for _ in range(F))
+    else:
+        mi = [rng.pick([1, 4])] * F
+    sh = rng.pick([1, 4, 16])
+    return [[m, sh] for m in mi]
+
+
 def gen_case(rng, tier, entry=None, clean=False):
-    B = rng.wpick([(1, 1), (3, 2), (3, 3), (3, 4), (2, 5), (2, 6)])
+    # one case in five sits on a boundary of the quantified dimensions: B in {1,2,3} (the permutation is then often
+    # the identity: every row its own partner), beta extremes (rates at 0 / 1: nothing or everything kept; rates
+    # all about 1/2), mutual-information vectors with zeros / a single non-zero / unsorted
+    edge = rng.chance(0.2)
+    B = rng.pick([1, 2, 2, 3, 3]) if edge else rng.wpick([(1, 1), (3, 2), (3, 3), (3, 4), (2, 5), (2, 6)])
     F = rng.randint(1, 4)
     D = rng.randint(1, 4)
     mode = rng.pick([None, "feature", "feature", "feature", "hidden", "hidden", "hidden"])
@@ -168,6 +189,10 @@ def gen_case(rng, tier, entry=None, clean=False):
     nc, y = gen_y(rng, tk, B)
     beta = rng.pick([0.5, 0.5, 1.0, 2.0, 0.25, 4.0, 0.1])
     mi = gen_mi(rng, F) if (mode == "feature" or rng.chance(0.3)) else None
+    if edge:
+        beta = rng.pick([0.01, 0.001, 0.05, 100.0, 1000.0, 0.5])
+        if mi is not None and rng.chance(0.7):
+            mi = gen_mi_boundary(rng, F)
     case = dict(entry=entry, seed=rng.randrange(1 << 30), B=B, F=F, D=D, mode=mode, num_classes=nc,
                 target=tk, y=y, beta=beta, mi=mi, x=x, val=gen_vals(rng, x))
     # low rate, outside the quantifier: scores with a ZERO sum (all-nan target, no raise)
@@ -797,7 +822,10 @@ def flatten(cases, obss):
 def stats(cases, obss):
     d = {"total": 0, "entry": {}, "mode": {}, "target": {}, "B": {}, "F": {}, "D": {}, "beta": {}, "raise_cases": 0,
          "rows": 0, "rows_mixed": 0, "rows_self_or_unconstrained": 0, "rows_with_partner_entries": 0,
-         "distinct_targets": 0}
+         "distinct_targets": 0, "rows_taking_every_entry_from_the_partner": 0,
+         "rows_keeping_every_entry_but_mixing_the_target": 0, "calls_where_every_row_is_its_own_partner_B_ge_2": 0,
+         "calls_with_a_single_row": 0, "mi_with_leading_zero": 0, "mi_with_single_nonzero": 0,
+         "mi_not_sorted_descending": 0, "beta_at_most_0.01": 0, "beta_at_least_100": 0}
     d["zero_sum_mi_cases"] = sum(1 for c, _ in flatten(cases, obss) if zero_sum_mi(c))
     def spread(c):
         vs = [abs(val_of(c, i)) for a in c["x"] for b in a for i in b if val_of(c, i) != 0]
@@ -825,6 +853,24 @@ def stats(cases, obss):
             d["rows_mixed"] += rec["mixed_rows"]
             d["rows_self_or_unconstrained"] += rec["self_rows"]
             d["rows_with_partner_entries"] += sum(1 for r in rec["own"] if not all(v for cc in r for v in cc))
+            if c["mode"] is not None:
+                none_kept = sum(1 for r in rec["own"] if not any(v for cc in r for v in cc))
+                all_kept_mixed = sum(1 for i_, r in enumerate(rec["own"])
+                                     if all(v for cc in r for v in cc) and rec["partner"][i_] != i_)
+                d["rows_taking_every_entry_from_the_partner"] += none_kept
+                d["rows_keeping_every_entry_but_mixing_the_target"] += all_kept_mixed
+                if c["B"] >= 2 and rec["self_rows"] == c["B"]:
+                    d["calls_where_every_row_is_its_own_partner_B_ge_2"] += 1
+                if c["B"] == 1:
+                    d["calls_with_a_single_row"] += 1
+        if c["mode"] == "feature" and c["mi"] is not None and not zero_sum_mi(c):
+            ms = [fr_of(m) for m in c["mi"]]
+            d["mi_with_leading_zero"] += int(len(ms) >= 2 and ms[0] == 0)
+            d["mi_with_single_nonzero"] += int(len(ms) >= 2 and sum(1 for m in ms if m != 0) == 1)
+            d["mi_not_sorted_descending"] += int(ms != sorted(ms, reverse=True))
+        if c["mode"] is not None:
+            d["beta_at_most_0.01"] += int(c["beta"] <= 0.01)
+            d["beta_at_least_100"] += int(c["beta"] >= 100)
     return d
 
 
@@ -1017,6 +1063,11 @@ def sanity(cases, obss):
         probs.append("fewer than 30 % of the calls carry feature entries of widely different magnitudes")
     if d["calls_with_zero_or_subnormal_entries"] == 0:
         probs.append("no call with zero / subnormal feature entries")
+    for k in ("rows_taking_every_entry_from_the_partner", "rows_keeping_every_entry_but_mixing_the_target",
+              "calls_where_every_row_is_its_own_partner_B_ge_2", "calls_with_a_single_row", "mi_with_leading_zero",
+              "mi_with_single_nonzero", "mi_not_sorted_descending", "beta_at_most_0.01", "beta_at_least_100"):
+        if d[k] == 0:
+            probs.append(f"boundary never hit: {k} = 0")
     if d["calls_on_kept_argument_objects"] == 0:
         probs.append("no repeated call on the untouched argument objects of the previous call")
     return probs
